@@ -170,7 +170,7 @@ def run_config(chk, config):
     info = {"bad": [], "seen": {}}
 
     def on_loop(frame, head, H, res, havoc, lid):
-        if frame.key != a.avp_greedy["key"] or eng.mute:
+        if eng.mute or not in_ctx(frame, a.avp_greedy) or not record_loop(res, H.ntrace):
             return
         n0 = H.ntrace
         for b in res["back"]:
@@ -316,6 +316,7 @@ def run(chk):
     from framework import Sub
     import rules.c16 as c16
     Sub(chk, "via C16 | ", lambda k: k.startswith("reject-value") or "(wire)" in k or "decode at the AVP decoder" in k or k == "table | attribute_type | dispatch"
+        or k in ("table | message_type | decode", "pinning | message_type")
         ).borrow(c16, "default", 6, "rejection of unassigned codes")
     if chk.tier == "thorough":
         for cfg in ("debug", "release"):
